@@ -1385,6 +1385,8 @@ class RenameSeries(Elemwise):
 
 class Fillna(Elemwise):
     _projection_passthrough = True
+    # DataFrame.fillna looks a Series value up by column label
+    _series_keyed_by_column = True
     _parameters = ["frame", "value"]
     _defaults = {"value": None}
     operation = M.fillna
@@ -3669,6 +3671,7 @@ class CombineFirstAlign(MaybeAlignPartitions):
 
 class FillnaAlign(MaybeAlignPartitions):
     _projection_passthrough = True
+    _series_keyed_by_column = True
     _parameters = ["frame", "value"]
     _expr_cls = Fillna
 
@@ -4032,11 +4035,13 @@ def _sort_mixed(values):
     return values.take(locs)
 
 
-def _keyed_by_column(arg):
+def _keyed_by_column(arg, series_by_column=False):
     # As an argument of a DataFrame method, a dict or a Series is looked up by
-    # column label and a frame is aligned on its columns
+    # column label and a frame is aligned on its columns. A Series expression is
+    # aligned on the rows (a condition, a predicate) unless the operation declares
+    # ``_series_keyed_by_column`` (the value of fillna, e.g. ``df.mean()``)
     if isinstance(arg, Expr):
-        return arg.ndim == 2
+        return arg.ndim == 2 or (series_by_column and arg.ndim == 1)
     return isinstance(arg, dict) or is_series_like(arg) or is_dataframe_like(arg)
 
 
@@ -4054,7 +4059,8 @@ def plain_column_projection(expr, parent, dependents, additional_columns=None):
         # we are accesing the index
         column_union = []
     elif isinstance(expr, (Elemwise, MaybeAlignPartitions)) and any(
-        _keyed_by_column(op) for op in expr.operands[1:]
+        _keyed_by_column(op, getattr(expr, "_series_keyed_by_column", False))
+        for op in expr.operands[1:]
     ):
         # The operands are the arguments of a pandas method. A Series looks such
         # an argument up by row label (or rejects it): the operation has to keep
